@@ -385,9 +385,9 @@ theorem truncate_counter (base suf : Str) (k : Nat) :
   rw [this, List.append_assoc]
   exact truncateAt_prefix _ _
 
-theorem source_tryCounters_eq_model (lower : Str → Str) (accept : Nat → Str → Bool) (pre suf : Str)
-    (fuel k : Nat) (base : Str) :
-    Gen.tryCounters lower accept pre suf fuel k base = tryCounters lower accept base suf fuel k := by
+theorem source_tryCounters_eq_model (U : Char → Bool) (lower : Str → Str) (accept : Nat → Str → Bool)
+    (pre suf : Str) (fuel k : Nat) (base : Str) :
+    Gen.tryCounters U lower accept pre suf fuel k base = tryCounters lower accept base suf fuel k := by
   induction fuel generalizing k with
   | zero => rfl
   | succ fuel ih =>
